@@ -13,6 +13,8 @@ Definition tid_i8 : option N := Some 4.
 Definition tid_i16 : option N := Some 5.
 Definition tid_i32 : option N := Some 6.
 Definition tid_i64 : option N := Some 7.
+Definition tid_dec64 : option N := Some 17.
+Definition tid_dec128 : option N := Some 18.
 Definition no_cast_score : option N := Some 800.
 Definition refined_literal_bonus : option N := Some 100.
 Definition default_score_i8 : option N := Some 160.
@@ -22,6 +24,9 @@ Definition default_score_i64 : option N := Some 190.
 Definition variadic_same_score : option N := Some 200.
 Definition setop_full_type_equality : option N := Some 1.
 Definition setop_arity_check : option N := Some 1.
+Definition setop_decimal_rule : option N := Some 1.
+Definition src_dec64_max_precision : option N := Some 18.
+Definition src_dec128_max_precision : option N := Some 38.
 Definition score_table : list (list (option N)) := [
   [Some 10; None; None; None; None; None; None; None; None; None; None; None; None; None; None; None; None; None; None; None; None; None; None; None; None; None; None];
   [Some 10; None; None; None; None; None; None; None; None; None; None; None; None; None; None; None; None; None; None; None; None; None; None; None; None; None; None];
@@ -30,17 +35,17 @@ Definition score_table : list (list (option N)) := [
   [Some 10; None; None; None; Some 160; Some 161; Some 191; Some 190; Some 185; None; None; None; None; None; Some 179; Some 180; Some 181; Some 141; Some 140; None; None; None; None; Some 80; None; None; None];
   [Some 10; None; None; None; None; Some 161; Some 191; Some 190; Some 185; None; None; None; None; None; Some 179; Some 180; Some 181; Some 141; Some 140; None; None; None; None; Some 80; None; None; None];
   [Some 10; None; None; None; None; None; Some 191; Some 190; Some 185; None; None; None; None; None; Some 179; Some 180; Some 181; Some 141; Some 140; None; None; None; None; Some 80; None; None; None];
-  [Some 10; None; None; None; None; None; None; Some 190; Some 185; None; None; None; None; None; None; Some 180; Some 181; None; Some 140; None; None; None; None; Some 80; None; None; None];
+  [Some 10; None; None; None; None; None; None; Some 190; Some 185; None; None; None; None; None; None; Some 180; Some 181; None; Some 180; None; None; None; None; Some 80; None; None; None];
   [Some 10; None; None; None; None; None; None; None; None; None; None; None; None; None; None; Some 180; Some 181; None; None; None; None; None; None; Some 80; None; None; None];
   [Some 10; None; None; None; None; Some 161; Some 191; Some 190; Some 185; None; Some 152; Some 154; Some 153; None; Some 179; Some 180; Some 181; Some 141; Some 140; None; None; None; None; Some 80; None; None; None];
   [Some 10; None; None; None; None; None; Some 191; Some 190; Some 185; None; Some 152; Some 154; Some 153; None; Some 179; Some 180; Some 181; Some 141; Some 140; None; None; None; None; Some 80; None; None; None];
   [Some 10; None; None; None; None; None; None; Some 190; Some 185; None; None; None; Some 153; None; None; Some 180; Some 181; Some 141; Some 140; None; None; None; None; Some 80; None; None; None];
-  [Some 10; None; None; None; None; None; None; None; Some 185; None; None; None; Some 153; None; None; Some 180; Some 181; Some 141; Some 140; None; None; None; None; Some 80; None; None; None];
+  [Some 10; None; None; None; None; None; None; None; Some 185; None; None; None; Some 153; None; None; Some 180; Some 181; None; Some 180; None; None; None; None; Some 80; None; None; None];
   [Some 10; None; None; None; None; None; None; None; None; None; None; None; None; None; None; Some 180; Some 181; None; None; None; None; None; None; Some 80; None; None; None];
   [Some 10; None; None; None; None; None; None; None; None; None; None; None; None; None; Some 179; Some 180; Some 181; Some 141; Some 140; None; None; None; None; Some 80; None; None; None];
   [Some 10; None; None; None; None; None; None; None; None; None; None; None; None; None; Some 179; Some 180; Some 181; Some 141; Some 140; None; None; None; None; Some 80; None; None; None];
   [Some 10; None; None; None; None; None; None; None; None; None; None; None; None; None; Some 179; Some 180; Some 181; Some 141; Some 140; None; None; None; None; Some 80; None; None; None];
-  [Some 10; None; None; None; None; None; None; None; None; None; None; None; None; None; None; Some 180; Some 181; Some 141; Some 140; None; None; None; None; Some 80; None; None; None];
+  [Some 10; None; None; None; None; None; None; None; None; None; None; None; None; None; None; Some 180; Some 181; Some 141; Some 183; None; None; None; None; Some 80; None; None; None];
   [Some 10; None; None; None; None; None; None; None; None; None; None; None; None; None; None; Some 180; Some 181; None; Some 140; None; None; None; None; Some 80; None; None; None];
   [Some 10; None; None; None; None; None; None; None; None; None; None; None; None; None; None; None; None; None; None; None; None; None; None; Some 80; None; None; None];
   [Some 10; None; None; None; None; None; None; None; None; None; None; None; None; None; None; None; None; None; None; None; None; None; None; None; None; None; None];
